@@ -4,7 +4,9 @@ case = {"doc": <gen/docs.py document; paragraphs may repeat a field name, also i
         "ops": [["first"|"last", pi, key] | ["before"|"after", pi, key, refkey] |
                 ["sort", pi, keyname] | ["set", pi, key, value] | ["setnew", pi, name, value] |
                 ["del", pi, key(, "pop")] | ["ordermissing", pi, "first"|"last"|"before"|"after", name] |
-                ["append", paraspec] | ["insert", idx, paraspec]]}
+                ["append", paraspec] | ["insert", idx, paraspec] |
+                ["get", pi, key, "item"|"get"|"in"|"kvpair"]],
+        "blind": bool}     # True: between the operations only the dump is looked at
 key      = [name index, occurrence index or null, case mode]   (indices modulo what is live;
             occurrence null = the un-indexed key, i.e. all occurrences; case mode 3..5 = the key is
             handed over as the occurrence's field-name token where it denotes one occurrence)
@@ -22,7 +24,7 @@ RULE = ("cases are (document built from structure, paragraphs with unique or dup
         "names incl. case variants, free comments, with/without final newline, unterminated "
         "trailing comment) x 1..6 structural operations (order_first/last/before/after with plain "
         "(name, i) and name-token keys, sort_fields with 5 key functions, indexed/un-indexed set and "
-        "delete (del and pop), enumerated edit-then-move pairs, "
+        "delete (del and pop), reads, enumerated edit-then-move pairs, documents with paragraphs of equal content, "
         "insert/append of new paragraphs); dump, keys(), every (name, i) lookup and live reads are "
         "compared with the list model after EVERY operation, a fresh parse after paragraph "
         "operations and at the end. Non-trivial = a duplicated field moved, or a paragraph "
@@ -60,7 +62,7 @@ def check(case):
     doc = case["doc"]
     if not docs.wellformed_doc(doc):
         return (False, ("invalid-case-skipped",))
-    run = DocRun(doc, dups=True, strict_nl=False)
+    run = DocRun(doc, dups=True, strict_nl=False, blind=bool(case.get("blind")))
     nontrivial = False
     open_doc = "doc-without-final-newline" in run.labels
     for op in case["ops"]:
@@ -81,6 +83,14 @@ def check(case):
         pi = op[1] % len(run.paras)
         p = run.paras[pi]
         what = "%s on paragraph %d %r" % (op, pi, [f["n"] for f in p])
+        if kind == "get":
+            # a read between the operations (the only look-up by key in a blind history)
+            if p:
+                key = resolve_key(run, p, op[2])
+                run.token_roles = roles(op[2])
+                run.do_get(pi, key, op[3], what)
+                run.token_roles = ()
+            continue
         if kind in ("first", "last", "before", "after"):
             if not p:
                 continue
@@ -169,11 +179,13 @@ op = st.one_of(
     st.tuples(st.just("refmissing"), pidx, st.sampled_from(["before", "after"]), key),
     st.tuples(st.just("append"), paraspec),
     st.tuples(st.just("insert"), st.integers(0, 5), paraspec),
+    st.tuples(st.just("get"), pidx, key, st.sampled_from(["item", "get", "in", "kvpair"])),
 )
+_blind = st.sampled_from([False, False, True])
 case_dups = st.fixed_dictionaries({"doc": docs.document(dups=True),
-                                   "ops": st.lists(op, min_size=1, max_size=6)})
+                                   "ops": st.lists(op, min_size=1, max_size=6), "blind": _blind})
 case_uniq = st.fixed_dictionaries({"doc": docs.document(dups=False),
-                                   "ops": st.lists(op, min_size=1, max_size=6)})
+                                   "ops": st.lists(op, min_size=1, max_size=6), "blind": _blind})
 
 
 def small_cases():
@@ -260,6 +272,35 @@ def insert_sequences():
                         yield {"doc": d, "ops": ops}
 
 
+def twin_paragraphs():
+    """Documents holding paragraphs of EQUAL content (same fields and values; same or other
+    comments and layout): a paragraph is found by what it is, not by what it holds.  Every insert
+    position / append, twice, and an edit of one twin."""
+    def para(c, sp):
+        return [{"n": "Package", "c": c, "b": sp + "a\n"}, {"n": "Depends", "c": "", "b": sp + "x\n"}]
+    other = [{"n": "Package", "c": "", "b": " b\n"}]
+    spec = lambda n: {"fields": [[n, "v"]], "how": "assign"}     # noqa: E731
+    same = {"fields": [["Package", "a"], ["Depends", "x"]], "how": "assign"}
+    shapes = [[para("", " "), para("", " ")], [para("", " "), other, para("", " ")],
+              [para("# one\n", " "), other, para("# two\n", "  ")], [para("", " "), para("", " "), para("", " ")],
+              [other, para("", " "), other, para("# c\n", " ")]]
+    for paras in shapes:
+        for sep in ("\n", "\n# free\n\n"):
+            d = {"lead": "", "paras": paras, "seps": [sep] * (len(paras) - 1), "tail": "", "final_nl": True}
+            n = len(paras)
+            choices = list(range(n + 2)) + [None]
+            for a in choices:
+                for b in choices:
+                    for first in (spec("X"), same):
+                        ops = [["append", first] if a is None else ["insert", a, first],
+                               ["append", spec("zed")] if b is None else ["insert", b, spec("zed")]]
+                        yield {"doc": d, "ops": ops}
+                for pi in range(n):
+                    one = ["append", spec("X")] if a is None else ["insert", a, spec("X")]
+                    yield {"doc": d, "ops": [["set", pi, [0, None, 0], "changed"], one]}
+                    yield {"doc": d, "ops": [one, ["del", pi, [1, None, 0]], ["last", pi, [0, None, 0]]]}
+
+
 def order_then_sort():
     """Unique-name paragraph, every single ordering operation followed by every sort key (some keys
     rank several names equally: a stable sort keeps their *current* order), also twice."""
@@ -282,11 +323,13 @@ def sources(tier):
                 Enum("insert-sequences", insert_sequences, "all 125 sequences of three insert/append calls x 4 documents"),
                 Enum("order-then-sort", order_then_sort, "every ordering op on a 4-field paragraph x 5 sort keys (x a second sort)"),
                 Enum("edit-then-move", edit_then_move, "3 name shapes x 3 endings x (edit or move with every key form) x 11 follow-up operations"),
+                Enum("twin-paragraphs", twin_paragraphs, "5 documents with paragraphs of equal content x 2 separators x every pair of insert/append positions (+ an edit of one twin)"),
                 Hyp("dup-doc-histories", case_dups, 350, shards=8),
                 Hyp("uniq-doc-histories", case_uniq, 300, shards=4)]
     return [Enum("small-docs", small_cases, "5 name shapes x 4 endings x 1-2 paragraphs x every single ordering op/key"),
             Enum("insert-sequences", insert_sequences, "all 125 sequences of three insert/append calls x 4 documents"),
             Enum("order-then-sort", order_then_sort, "every ordering op on a 4-field paragraph x 5 sort keys (x a second sort)"),
             Enum("edit-then-move", edit_then_move, "3 name shapes x 3 endings x (edit or move with every key form) x 11 follow-up operations"),
-            Hyp("dup-doc-histories", case_dups, 12000, shards=12),
+            Enum("twin-paragraphs", twin_paragraphs, "5 documents with paragraphs of equal content x 2 separators x every pair of insert/append positions (+ an edit of one twin)"),
+                Hyp("dup-doc-histories", case_dups, 12000, shards=12),
             Hyp("uniq-doc-histories", case_uniq, 8000, shards=4)]
